@@ -8,7 +8,7 @@ An abstract project is a JSON-able dict (it is the replay case):
   layout    "inside" | "inside-root" | "sibling" | "parent" | "outside" | "outside-rel" | "ownmod"   (where mage is started, see start())
   odd       True: contains shapes the property sentence does not decide or known deviations;
             only model-vs-implementation is compared, the oracle is not asked
-  packages  [{"dir": "imp/pa", "pkg": "pa", "funcs": [{"name","sig"[,"file": "more"]}] ("file": the function lives in <file>.go), "ns": [{"name", "methods":[{"name","sig"}]}],
+  packages  [{"dir": "imp/pa", "pkg": "pa", "funcs": [{"name","sig"[,"file": "more"]}] ("file": the function lives in <file>.go - e.g. "x_linux", "x_amd64" -, "build": that file starts with `//go:build <build>`, "foreign": the file belongs to another platform than the host: its function is NO target of the package here), "ns": [{"name", "methods":[{"name","sig"}]}],
               "default": name|None, "aliases": {alias: func}, "unexported": [...], "nontarget": bool, "nested": dir|None}]
   local     {"funcs": [...], "ns": [...], "default": name|None}
   files     [{"name": "mf_0.go", "decls": [decl]}]
@@ -92,7 +92,8 @@ def oracle_tag(spec):
 
 def pkg_targets(pk):
     """[(receiver, name)] the targets of an abstract package (exported functions and namespace methods)"""
-    return [("", f["name"]) for f in pk["funcs"]] + [(n["name"], m["name"]) for n in pk["ns"] for m in n["methods"]]
+    return ([("", f["name"]) for f in pk["funcs"] if not f.get("foreign")] +
+            [(n["name"], m["name"]) for n in pk["ns"] for m in n["methods"]])
 
 
 def defid(path, recv, name):
@@ -203,7 +204,11 @@ def render_package(proj, pk):
 def render_extra_file(proj, pk, part):
     """<part>.go of an imported package: the functions that were added to it later"""
     u = uses(pk, part)
-    out = ["package %s\n" % pk["pkg"]]
+    out = []
+    cons = [f["build"] for f in pk["funcs"] if f.get("file") == part and f.get("build")]
+    if cons:
+        out += ["//go:build %s" % cons[0], ""]
+    out.append("package %s\n" % pk["pkg"])
     imps = (['"context"'] if u["ctx"] else []) + (['"%s/probe"' % module_path(proj)] if u["probe"] else [])
     if imps:
         out.append("import (\n\t" + "\n\t".join(imps) + "\n)\n")
@@ -343,6 +348,30 @@ def gen_package(rng, i, shape=None):
     if pk["funcs"] and rng.random() < 0.6:
         for a in rng.sample(["zz", "qq", "go", "ship", "b"], rng.choice([1, 2])):
             pk["aliases"][a + str(i)] = rng.choice(pk["funcs"])["name"]
+    return pk
+
+
+FOREIGN = {"linux": "windows", "windows": "linux", "darwin": "linux", "amd64": "arm64", "arm64": "amd64"}
+
+
+def add_platform_files(rng, pk, host_os, host_arch):
+    """spread further targets of the package over platform-constrained files: a host-OS suffix
+    file, a host-arch suffix file, a `//go:build <hostos>` file - all part of the package on the
+    host - and files of a foreign OS / architecture whose functions are NOT targets here"""
+    used = {f["name"] for f in pk["funcs"]}
+    free = [n for n in FUNC_NAMES if n not in used]
+    rng.shuffle(free)
+    fos, farch = FOREIGN.get(host_os, "plan9"), FOREIGN.get(host_arch, "riscv64")
+    kinds = [("on_%s" % host_os, None, False), ("on_%s" % host_arch, None, False), ("tagged", host_os, False),
+             ("both_%s_%s" % (host_os, host_arch), None, False),
+             ("on_%s" % fos, None, True), ("on_%s" % farch, None, True), ("ftagged", "%s || %s" % (fos, farch), True)]
+    chosen = rng.sample(kinds[:4], rng.choice([1, 2, 3])) + rng.sample(kinds[4:], rng.choice([1, 2]))
+    for (fname, build, foreign), nm in zip(chosen, free):
+        f = {"name": nm, "sig": rng.choice(SIGS), "file": fname, "foreign": foreign}
+        if build:
+            f["build"] = build
+        pk["funcs"].append(f)
+    pk["shape"] = pk.get("shape", "?") + "+platform"
     return pk
 
 
@@ -515,8 +544,14 @@ def cfunc(path, recv, name):
     return '{| f_alias := ""; f_path := %s; f_recv := %s; f_name := %s |}' % (cs(path), cs(recv), cs(name))
 
 
-def cpkg(pk):
-    funcs = [cfunc("", r, n) for r, n in pkg_targets(pk)]
+def cpkg(pk, gofiles=None):
+    """gofiles: the .GoFiles the go tool reports for the package (host platform forced, as mage does
+    for every go command): a function whose file is not among them is not in the package"""
+    if gofiles is None:
+        funcs = [cfunc("", r, n) for r, n in pkg_targets(pk)]
+    else:
+        funcs = [cfunc("", "", f["name"]) for f in pk["funcs"] if (f.get("file") or pk["pkg"]) + ".go" in gofiles]
+        funcs += [cfunc("", n["name"], m["name"]) for n in pk["ns"] for m in n["methods"]]
     return "{| pk_name := %s; pk_funcs := %s; pk_default := %s; pk_aliases := %s |}" % (
         cs(pk["pkg"]), cl(funcs), "None" if not pk.get("default") else "(Some %s)" % cs(pk["default"]),
         cl(["(%s, %s)" % (cs(a), cs(f)) for a, f in (pk.get("aliases") or {}).items()]))
